@@ -133,6 +133,7 @@ type Out struct {
 	shardSize int
 
 	cur     []string
+	prelude string // extra definitions emitted before `cases` in the following shards
 	nShard  int
 	nCases  int
 	log     *bufio.Writer
@@ -216,6 +217,7 @@ func (o *Out) flush() {
 	var b strings.Builder
 	b.WriteString(o.header)
 	b.WriteString("\nSet Printing Width 1000000.\nSet Printing Depth 1000000.\n")
+	b.WriteString(o.prelude)
 	fmt.Fprintf(&b, "Definition cases : list (N * %s) :=\n  %s.\n",
 		o.caseType, coqList(o.cur))
 	fmt.Fprintf(&b, "Definition R := Eval vm_compute in (%s cases).\n",
@@ -226,6 +228,13 @@ func (o *Out) flush() {
 	must(os.WriteFile(name, []byte(b.String()), 0o644))
 	o.nShard++
 	o.cur = nil
+}
+
+// SetPrelude starts a new shard whose cases may refer to the given
+// definitions.
+func (o *Out) SetPrelude(p string) {
+	o.flush()
+	o.prelude = p
 }
 
 // Close writes the last shard and summary.json.
